@@ -6,7 +6,8 @@ from props import common
 LEVEL = ("Mechanism level: requests are issued and streams canonicalised only on the `addressed peer == current peer` "
          "edge; next_peer_pks has exactly two push sites, both on the `!=` edge, each pushing the *addressed* peer before "
          "recording the RequestSentBy(current peer) state; the outcome carries dedup(next_peer_pks) and prev-data exits "
-         "carry none. Quiescence over finished histories is not decided.")
+         "carry none. Quiescence over finished histories is not decided."
+         " Added: a host result is applied only to a met request whose stored sender is the current peer.")
 
 
 def check(ctx):
